@@ -1,5 +1,6 @@
 SPECIFICATION Spec
 CONSTANTS
   Alpha <- Boundary
+  FirstAlpha <- Boundary
   N = 4
 INVARIANTS Judge
